@@ -331,7 +331,7 @@ theorem popN_all (st : List Val) (ins : List (List Val × Nat)) : popN st.length
 
 theorem Rel.setUseTop {σ : RSt} {π : PSt} (h : Rel env A σ π) : Rel env A σ { π with useTop := false } :=
   ⟨h.depth, h.params0, h.stack, h.ctxVals, h.inputs, h.register, h.ghost, h.out, h.printed, h.retain, rfl, h.stacks, h.fnStack,
-   h.gvars, h.lvars, h.clean, h.fnsLen, h.lams, h.argVar⟩
+   h.gvars, h.lvars, h.clean, h.fnsLen, h.lams, h.argVar, h.gArg, h.funcs⟩
 
 theorem setVar_useTop_comm (π : PSt) (k : PKey) (v : Val) (b : Bool) :
     { π.setVar k v with useTop := b } = ({ π with useTop := b }).setVar k v := by
